@@ -63,7 +63,7 @@ CHECKS = {
         },
         "runs": [seq("HarnessC01T1", ["c01-end"]), seq("HarnessC01T2", ["c01-end"]), seq("HarnessC01T3L1", ["c01-end"], ["quick"]),
                  seq("HarnessC01T4L1", ["c01-end"], ["quick"]), seq("HarnessC01T5", ["c01-end"]), seq("HarnessC01T6", ["c01-end"]),
-                 seq("HarnessC01T7", ["c01-end"]), conc("HarnessC02History2", ["c02-hist-end"]), seq("HarnessC01Gen2", ["c01-gen-end"]),
+                 seq("HarnessC01T7", ["c01-end"]), seq("HarnessC01T8", ["c01-end"], ["quick"]), seq("HarnessC01T8L2", ["c01-end"], ["thorough"]), conc("HarnessC02History2", ["c02-hist-end"]), seq("HarnessC01Gen2", ["c01-gen-end"]),
                  seq("HarnessC01Gen2L2", ["c01-gen-end"], ["thorough"]), seq("HarnessC01Gen3", ["c01-gen-end"], ["thorough"]), seq("HarnessC01T3", ["c01-end"], ["thorough"]), seq("HarnessC01T4", ["c01-end"], ["thorough"]),
                  seq("HarnessC01T2L3", ["c01-end"], ["thorough"]), seq("HarnessC01T7L3", ["c01-end"], ["thorough"])],
         "bounds": {"quick": "7 types (scalars/durations, skipped fields in every position, nested+pointer+embedded structs, slices/maps/arrays, user pointers, text-unmarshalable value+pointer, deep nesting); 2 layers (1 for the two biggest types); slices len<=2, maps <=1 entry; all scalar values; generated family: all 12+144 types of 1-2 fields over {int8,string,[]int16,map,*int,struct,*struct,[2]uint8,dials:\"-\",chan,func,text-unmarshalable}, 1 layer",
@@ -78,7 +78,7 @@ CHECKS = {
             "design_ref": "DESIGN.md §4 C02",
         },
         "runs": [conc("HarnessC02History2", ["c02-hist-end"]), seq("HarnessC01T4L1", ["c01-end"], ["quick"]), seq("HarnessC01T3L1", ["c01-end"], ["quick"]),
-                 seq("HarnessC01T6", ["c01-end"]), conc("HarnessC02History3", ["c02-hist-end"], ["thorough"]),
+                 seq("HarnessC01T6", ["c01-end"]), seq("HarnessC01T5", ["c01-end"]), seq("HarnessC01T8", ["c01-end"], ["quick"]), seq("HarnessC01T8L2", ["c01-end"], ["thorough"]), conc("HarnessC02History3", ["c02-hist-end"], ["thorough"]),
                  seq("HarnessC01T4", ["c01-end"], ["thorough"]), seq("HarnessC01T3", ["c01-end"], ["thorough"])],
         "bounds": {"quick": "corpus types T3,T4,T6 with 1-2 layers; 2 re-stacks with symbolic set/unset of a nested-pointer leaf and a scalar",
                    "thorough": "2 layers on T3/T4; 3 re-stacks"},
@@ -93,7 +93,8 @@ CHECKS = {
         },
         "runs": [seq("HarnessC03A2", ["c03-end"]), seq("HarnessC03B2", ["c03-end"]), seq("HarnessC03C2", ["c03-end"]),
                  seq("HarnessC03D2", ["c03-end"], native_timeout=120), seq("HarnessC03ConfigRecursive", [], native_timeout=120),
-                 seq("HarnessC03E", ["c03-end"]), seq("HarnessC03F2", ["c03-end"]), seq("HarnessC03A3", ["c03-end"], ["thorough"])],
+                 seq("HarnessC03E", ["c03-end"]), seq("HarnessC03F2", ["c03-end"]), seq("HarnessC03G2", ["c03-end"], ["quick"]), seq("HarnessC03G2Full", ["c03-end"], ["thorough"]), seq("HarnessC03H2", ["c03h-end"]),
+                 seq("HarnessC03A3", ["c03-end"], ["thorough"])],
         "bounds": {"quick": "families A (pointer fields), B (maps), C (slices/arrays), D (interfaces), E (maps of maps), F (refs after unexported fields); N<=2 nodes; call depth bound 400 (unwinding assertion)",
                    "thorough": "plus family A with 3 nodes"},
         "outside": "more nodes; other node shapes; re-stacking of recursive types (blocked by the Pointerify finding)",
